@@ -1,4 +1,4 @@
-SPECIFICATION SpecSweep
+SPECIFICATION SwSpec
 CONSTANTS
   MaxHeight = 8
   MaxTx = 16
@@ -8,4 +8,5 @@ CONSTANTS
   DTs <- DTsFull
 INVARIANT Inv
 INVARIANT Emit
+PROPERTY SwStepProps
 CHECK_DEADLOCK FALSE
